@@ -77,7 +77,28 @@ macro_rules! adv_int { ($($t:ty),*) => { $(impl Adv for $t {
     fn render(&self) -> Option<String> { Some(self.to_string()) }
     fn parse(s: &str) -> Option<Self> { let v: $t = s.parse().ok()?; if v.to_string() == s { Some(v) } else { None } }
 })* } }
-adv_int!(i32, i64, u8, u32, u64, i8, u16, u128, i16, usize);
+adv_int!(i32, i64, u8, u32, u64, i8, u16, i16, usize);
+// 128-bit integers: values that agree in their low 64 bits (or low 32) but differ above
+macro_rules! adv_wide { ($($t:ty),*) => { $(impl Adv for $t {
+    fn gen(r: &mut Rng) -> Self {
+        let lows: [$t; 6] = [0, 1, 7, 12, 0xFFFF_FFFF, 0xFFFF_FFFF_FFFF_FFFF];
+        let low = *r.pick(&lows);
+        match r.usize(6) {
+            0 => <$t>::MAX,
+            1 => <$t>::MIN,
+            2 => low,
+            3 => low.wrapping_add(1 << 64),
+            4 => low.wrapping_add(1 << 100),
+            _ => low.wrapping_add((1 << 64) * (r.usize(5) as $t)),
+        }
+    }
+    fn mutate(&self, r: &mut Rng) -> Self {
+        match r.usize(5) { 0 => self.wrapping_add(1), 1 => self ^ (1 << 64), 2 => self.wrapping_add(1 << 64), 3 => self ^ (1 << 32), _ => self ^ (1 << 127 - r.usize(60)) }
+    }
+    fn render(&self) -> Option<String> { Some(self.to_string()) }
+    fn parse(s: &str) -> Option<Self> { let v: $t = s.parse().ok()?; if v.to_string() == s { Some(v) } else { None } }
+})* } }
+adv_wide!(u128, i128);
 impl Adv for f64 {
     fn gen(r: &mut Rng) -> Self {
         *r.pick(&[0.0, -0.0, 1.0, 1.5, -1.0, 10.0, 1e10, f64::MIN_POSITIVE, f64::INFINITY, f64::NEG_INFINITY, 0.1, 1e-7, 123.0, 12.0, 3.0])
@@ -369,6 +390,8 @@ shape!(s_u8x3, k_u8x3, ka_u8x3, [a: u8, b: u8, c: u8], (u8, u8, u8), |t| [t.0, t
 shape!(s_five, k_five, ka_five, [a: String, b: i32, c: char, d: bool, e: String], (String, i32, char, bool, String), |t| [t.0.clone(), t.1, t.2, t.3, t.4.clone()]);
 
 shape!(s_u128, k_u128, ka_u128, [a: u128, b: u128], (u128, u128), |t| [t.0, t.1]);
+shape!(s_i128, k_i128, ka_i128, [a: i128], (i128,), |t| [t.0]);
+shape!(s_vecwide, k_vecwide, ka_vecwide, [a: Vec<u128>, b: Option<i128>], (Vec<u128>, Option<i128>), |t| [t.0.clone(), t.1]);
 shape!(s_i8x3, k_i8x3, ka_i8x3, [a: i8, b: i8, c: i8], (i8, i8, i8), |t| [t.0, t.1, t.2]);
 shape!(s_f32x2, k_f32x2, ka_f32x2, [a: f32, b: f32], (f32, f32), |t| [t.0, t.1]);
 shape!(s_nested, k_nested, ka_nested, [a: (i32, i32), b: i32], ((i32, i32), i32), |t| [t.0, t.1]);
@@ -650,7 +673,7 @@ fn main() {
     let pairs: u64 = std::env::var("VERIF_KEY_PAIRS").ok().and_then(|s| s.parse().ok()).unwrap_or(if tier == "thorough" { 400_000 } else { 6_000 });
     let mut rng = Rng::new(seed.wrapping_mul(0x9E37_79B9) ^ ((shard.0 as u64) << 32));
     macro_rules! go { ($($s:ident),*) => { $( { let sh = $s(); let mut r = rng.fork(hash_str(sh.name)); run_shape(&sh, &mut rep, &mut r, pairs); rep.count("C02", "shapes_x_flavours", 2); } )* } }
-    go!(s_string, s_str, s_i64, s_f64, s_char, s_optstr, s_vecstr, s_tup, s_optopt, s_slice, s_users, s_usere, s_str2, s_ref2, s_int2, s_u64x2, s_strint, s_intstr, s_char2, s_f64x2, s_optstr_str, s_vec2, s_boolstr, s_str3, s_u8x3, s_five, s_m_ref, s_m_noarg, s_m_int2, s_u128, s_i8x3, s_f32x2, s_nested, s_optvec, s_vecopt, s_sos, s_vecint2, s_usize_str, s_m_val, s_m_mut, s_names1, s_names2, s_names3, s_names4, s_names5, s_names6, s_names7, s_names8);
+    go!(s_string, s_str, s_i64, s_f64, s_char, s_optstr, s_vecstr, s_tup, s_optopt, s_slice, s_users, s_usere, s_str2, s_ref2, s_int2, s_u64x2, s_strint, s_intstr, s_char2, s_f64x2, s_optstr_str, s_vec2, s_boolstr, s_str3, s_u8x3, s_five, s_m_ref, s_m_noarg, s_m_int2, s_u128, s_i8x3, s_f32x2, s_nested, s_optvec, s_vecopt, s_sos, s_vecint2, s_usize_str, s_m_val, s_m_mut, s_names1, s_names2, s_names3, s_names4, s_names5, s_names6, s_names7, s_names8, s_i128, s_vecwide);
     rep.notes.push(format!("keymon shard {}/{} seed {} tier {} pairs/shape {} wall {:.2}s", shard.0, shard.1, seed, tier, pairs, t0.elapsed().as_secs_f64()));
     rep.write(&out);
 }
